@@ -106,11 +106,17 @@ Example C03_regex_inverts_printer_autoinc_except_nonvacuous :
   autoinc w_tab_full_text [B "id"; B "a"; B "b"; B "cx"; B "c"] [B "id"] = AutoOk (B "id").
 Proof. vm_compute. reflexivity. Qed.
 
-(** 2e. the predicate of a partial index as the planner writes it: if the letters WHERE (upper case)
-    do not occur before the keyword, the predicate is recovered (trimmed). *)
+(** 2e. the predicate of a partial index as the planner writes it -- the statement up to the closing
+    parenthesis of the parts, spaces, WHERE, a white-space byte, the predicate: if no match of reIdxWhere
+    (")" + spaces + WHERE in any case + white space) starts earlier in the statement, the predicate is
+    recovered (trimmed).  This is addIndexes since the fix "sqlite inspection finds the predicate of a partial
+    index after the closing parenthesis of the index parts"; before it the premise had to be "the upper-case
+    letters WHERE do not occur before the keyword" (index_predicate_old_printed, and 3d). *)
 Theorem C03_regex_inverts_printer_predicate_except :
-  forall pre c p, occurs_cs K_WHERE pre = false -> ~ In c K_WHERE ->
-  index_predicate (pre ++ c :: K_WHERE ++ p) = Some (trim_space p).
+  forall pre w1 s0 c p,
+  forallb is_space w1 = true -> is_space s0 = true ->
+  no_start_before _ where_at (pre ++ ch_rp :: w1 ++ K_WHERE ++ s0 :: c :: p) (List.length pre) = true ->
+  index_predicate (pre ++ ch_rp :: w1 ++ K_WHERE ++ s0 :: c :: p) = Some (ExportModel.trim_space (s0 :: c :: p)).
 Proof. exact index_predicate_printed. Qed.
 Print Assumptions C03_regex_inverts_printer_predicate_except.
 
@@ -160,12 +166,19 @@ Theorem C03_autoinc_refuted :
 Proof. exact w_autoinc. Qed.
 Print Assumptions C03_autoinc_refuted.
 
-(** 3d. partial-index predicate: the planner's own CREATE INDEX `ix_WHERE_y` ... WHERE a > 0 is cut
-    at the WHERE inside the name; a lower-case `where` is not found at all (inspection fails). *)
+(** 3d. partial-index predicate, the OLD code (strings.Index(stmt, "WHERE"); known findings C03-where-in-name
+    and C03-lowercase-where, both FIXED in the Go code): the planner's own CREATE INDEX `ix_WHERE_y` ... WHERE a > 0
+    was cut at the WHERE inside the name; a lower-case `where` was not found at all (inspection failed).
+    [C03_index_predicate_fixed]: what addIndexes returns on the same two statements since the fix. *)
 Theorem C03_index_predicate_refuted :
-  index_predicate (B "CREATE INDEX `ix_WHERE_y` ON `t` (`a`) WHERE a > 0") = Some (B "_y` ON `t` (`a`) WHERE a > 0") /\
-  index_predicate (B "CREATE INDEX i on t (a) where a > 0") = None.
+  index_predicate_old (B "CREATE INDEX `ix_WHERE_y` ON `t` (`a`) WHERE a > 0") = Some (B "_y` ON `t` (`a`) WHERE a > 0") /\
+  index_predicate_old (B "CREATE INDEX i on t (a) where a > 0") = None.
 Proof. exact w_where. Qed.
+Theorem C03_index_predicate_fixed :
+  index_predicate (B "CREATE INDEX `ix_WHERE_y` ON `t` (`a`) WHERE a > 0") = Some (B "a > 0") /\
+  index_predicate (B "CREATE INDEX i on t (a) where a > 0") = Some (B "a > 0").
+Proof. exact w_where_fixed. Qed.
+Print Assumptions C03_index_predicate_fixed.
 Print Assumptions C03_index_predicate_refuted.
 
 (** 3e. fillConstName: of two foreign keys with the same columns and target the first one of the
@@ -344,15 +357,17 @@ Example C03_regex_inverts_printer_table_nonvacuous :
 Proof. split; [exact w_tab_full_print|vm_compute; split; reflexivity]. Qed.
 
 (** 2h. the partial-index predicate composed over the tied printer ([print_index] = addIndexes after
-    normalizeIdxName): for every index with a trimmed, non-empty predicate [p], if the upper-case letters
-    WHERE do not occur in the statement before the keyword ([index_head]: CREATE [UNIQUE] INDEX `name` ON
-    `table` (parts)), the inspector reads back exactly [p].  3d is the failure without the premise. *)
+    normalizeIdxName): for every index with a trimmed, non-empty predicate [p], if no match of reIdxWhere
+    (")" + spaces + WHERE in any case + white space) starts before the closing parenthesis of ([index_head]:
+    CREATE [UNIQUE] INDEX `name` ON `table` (parts)), the inspector reads back exactly [p].  The premise is
+    decidable on the text; it fails only for a name or expression that itself contains ") WHERE ". *)
 Theorem C03_regex_inverts_printer_predicate_index_except :
   forall t i0 i p txt,
   normalize_idx_name i0 t = Some i -> i_pred i = Some p -> p <> [] -> ExportModel.trim_space p = p ->
   is_go_space (last_byte p) = false ->
-  occurs_cs K_WHERE (index_head t i) = false ->
-  print_index t i0 = Some txt -> index_predicate txt = Some p.
+  print_index t i0 = Some txt ->
+  no_start_before _ where_at txt (pred (List.length (index_head t i))) = true ->
+  index_predicate txt = Some p.
 Proof. exact index_predicate_print_index. Qed.
 Print Assumptions C03_regex_inverts_printer_predicate_index_except.
 
@@ -360,6 +375,6 @@ Example C03_regex_inverts_printer_predicate_index_nonvacuous :
   let i := mkIndex (B "i1") true [mkPart 1 true (Some (B "a")) None; mkPart 2 false None (Some (B "(a + 1)"))] (Some (B "a > 0")) None None in
   let t := x_t w_tab_full in
   print_index t i = Some (B "CREATE UNIQUE INDEX `i1` ON `t` (`a` DESC, (a + 1)) WHERE a > 0") /\
-  occurs_cs K_WHERE (index_head t i) = false /\
+  no_start_before _ where_at (B "CREATE UNIQUE INDEX `i1` ON `t` (`a` DESC, (a + 1)) WHERE a > 0") (pred (List.length (index_head t i))) = true /\
   index_predicate (B "CREATE UNIQUE INDEX `i1` ON `t` (`a` DESC, (a + 1)) WHERE a > 0") = Some (B "a > 0").
 Proof. vm_compute. repeat split; reflexivity. Qed.
